@@ -154,9 +154,10 @@ func ruleGuardBeforePull(c *Ctx, r *R) {
 			r.undecided(name+"|missing", token.NoPos, "anchor not found")
 			continue
 		}
+		cfield := counterField(fn)
 		for i, p := range pullsOn(fn, "inner", "Next") {
-			ok, _ := guardedByField(p.Block(), "x", token.GTR)
-			r.ok(ok, name+"|pull#"+itoa(i+1), p.Pos(), "First must not pull from its source once n items were yielded (pull only under x > 0)")
+			ok, _ := guardedByField(p.Block(), cfield, token.GTR)
+			r.ok(ok && cfield != "", name+"|pull#"+itoa(i+1), p.Pos(), "First must not pull from its source once n items were yielded (pull only under counter > 0)")
 		}
 	}
 	for _, name := range []string{"iterator.whileIterator.Next", "stream.whileStream.Next"} {
@@ -356,11 +357,12 @@ func ruleStickyEnd(c *Ctx, r *R) {
 		}
 		good := true
 		n := 0
+		cfield := counterField(fn)
 		instrs(fn, func(b *ssa.BasicBlock, i int, in ssa.Instruction) {
 			if st, ok := in.(*ssa.Store); ok {
-				if _, fld, ok := storedField(st.Addr); ok && fld == "x" {
+				if _, fld, ok := storedField(st.Addr); ok && fld == cfield && cfield != "" {
 					n++
-					if !isFieldIncDec(in, "x", -1) {
+					if !isFieldIncDec(in, cfield, -1) {
 						good = false
 					}
 				}
@@ -447,4 +449,28 @@ func ruleNonzeroDivisor(c *Ctx, r *R) {
 			r.violated(key, bin.Pos(), "integer division/modulo by "+yp+", which is not provably non-zero here: n = 0 (an empty or zero-sized argument) panics with a division by zero")
 		})
 	}
+}
+
+// counterField: the int field of the receiver that the method's entry branch compares with `<= 0` (the remaining-items
+// counter of First/Repeat), whatever it is called.
+func counterField(fn *ssa.Function) string {
+	if len(fn.Blocks) == 0 {
+		return ""
+	}
+	iff, ok := fn.Blocks[0].Instrs[len(fn.Blocks[0].Instrs)-1].(*ssa.If)
+	if !ok {
+		return ""
+	}
+	for _, val := range []bool{true, false} {
+		cf, ok := (guard{cond: iff.Cond, val: val}).asCmp()
+		if !ok {
+			continue
+		}
+		if ld, ok := cf.x.(*ssa.UnOp); ok {
+			if fa, ok := ld.X.(*ssa.FieldAddr); ok && isIntType(ld.Type()) && isConstInt(cf.y, 0) {
+				return fieldName(fa.X.Type(), fa.Field)
+			}
+		}
+	}
+	return ""
 }
